@@ -799,7 +799,30 @@ fn eval_in(case: &CliCase, stats: &mut Counters, bin: &Path, dir: &Path) -> Opti
             let casefile = dir.join("case.json");
             std::fs::write(&casefile, case.to_json().to_string()).ok()?;
             let me = std::env::current_exe().ok()?;
-            let out = run_prog(&me, &["child".into(), "cli-ber".into(), casefile.to_string_lossy().into_owned()], dir, 120);
+            let mut out = run_prog(&me, &["child".into(), "cli-ber".into(), casefile.to_string_lossy().into_owned()], dir, 120);
+            // A *directed* fault: "the write that completes the last result line fails" cannot be
+            // drawn (the number of writes depends on the run), so a fault index of DIRECTED_LAST + d
+            // means: run once with the file layer installed and no fault taking effect, count the
+            // writes on that file, then run again with the fault at (count - 1 - d). (Seeded change
+            // C13-r9-3: after a failed write the progress thread keeps receiving until `Finished`
+            // and ignores a closed channel — if the failing write was the last one, `Finished` is
+            // already consumed and the thread spins for ever.)
+            if let Some(pos) = fs_plan.faults.iter().position(|f| f.index >= DIRECTED_LAST) {
+                let sim0: Value = out.stderr.lines().find_map(|l| l.strip_prefix("SIMRESULT ")).and_then(|j| serde_json::from_str(j).ok()).unwrap_or(Value::Null);
+                let n = sim0["fs_writes"][fs_plan.faults[pos].file.as_str()].as_u64().unwrap_or(0);
+                let d = fs_plan.faults[pos].index - DIRECTED_LAST;
+                if sim0["kind"].as_str() != Some("ok") || n == 0 || out.timed_out {
+                    // the counting pass is an ordinary fault-free run: judge it as such
+                    stats.inc("directed last-write fault: counting pass did not end normally (judged as a fault-free run)");
+                } else {
+                    let mut plan2 = fs_plan.clone();
+                    plan2.faults[pos].index = n.saturating_sub(1 + d);
+                    let case2 = CliCase::Ber { alist: alist.clone(), args: args.clone(), workers: *workers, strategy: strategy.clone(), clock: clock.clone(), seeds: *seeds, expect_err: *expect_err, fs_plan: plan2 };
+                    std::fs::write(&casefile, case2.to_json().to_string()).ok()?;
+                    stats.inc("faults_fired/directed: hard fault at one of the last writes of a result file");
+                    out = run_prog(&me, &["child".into(), "cli-ber".into(), casefile.to_string_lossy().into_owned()], dir, 120);
+                }
+            }
             let _ = (workers, strategy, clock, seeds);
             if *expect_err {
                 // block sizes that do not fit: the subcommand must end with an error, not hang or panic
@@ -821,6 +844,9 @@ fn eval_in(case: &CliCase, stats: &mut Counters, bin: &Path, dir: &Path) -> Opti
         }
     }
 }
+
+/// fault indices from here on are resolved against the number of writes of a counting pass
+pub const DIRECTED_LAST: u64 = 1 << 62;
 
 trait NonBlock {
     fn custom_flags_nonblock(&mut self) -> &mut Self;
@@ -919,7 +945,8 @@ pub fn child_cli_ber(casefile: &str) -> ! {
     eprintln!(
         "SIMRESULT {}",
         json!({"kind": kind, "detail": detail, "steps": out.steps, "leaked": out.leaked, "hash": format!("{:x}", out.event_hash), "tasks": out.tasks.len(), "panicked": panicked, "sim_time_ns": out.clock_ns,
-               "fs_fired": fs.as_ref().map(|f| f.fired()), "fs_hard": fs.as_ref().is_some_and(|f| f.hard_fault_fired())})
+               "fs_fired": fs.as_ref().map(|f| f.fired()), "fs_hard": fs.as_ref().is_some_and(|f| f.hard_fault_fired()),
+               "fs_writes": fs.as_ref().map(|f| json!({"out.txt": f.count("out.txt", dstsim::simfs::OpKind::Write), "out_ldpc.txt": f.count("out_ldpc.txt", dstsim::simfs::OpKind::Write)}))})
     );
     std::process::exit(0)
 }
@@ -1521,6 +1548,13 @@ fn gen_ber(g: &mut Stream) -> CliCase {
                 fs_plan.faults.push(Planned { file: "code.alist".into(), kind: OpKind::Read, index: g.below(3), fault: Fault::Interrupted, sticky: false });
             }
             2 => fs_plan.faults.push(Planned { file: "code.alist".into(), kind: OpKind::Read, index: g.below(2), fault: Fault::Io, sticky: false }),
+            3 if g.chance(1, 2) => fs_plan.faults.push(Planned {
+                file: outfile.into(),
+                kind: OpKind::Write,
+                index: DIRECTED_LAST + *g.pick(&[0u64, 0, 0, 1, 2]),
+                fault: if g.chance(3, 4) { Fault::NoSpace } else { Fault::Io },
+                sticky: g.chance(1, 2),
+            }),
             _ => fs_plan.faults.push(Planned {
                 file: outfile.into(),
                 kind: OpKind::Write,
